@@ -126,6 +126,9 @@ namespace BitSerializer::Convert::Detail
 		// ReSharper disable once CppPossiblyErroneousEmptyStatements
 		for (; (startIt != endIt) && (*startIt == 0x20 || *startIt == 0x09); ++startIt) {}	// Skip spaces
 
+		// Skip leading zeros ("01" is the number 1, like for all other integral types)
+		for (; (endIt - startIt > 1) && *startIt == '0' && std::isdigit(startIt[1]); ++startIt) {}
+
 		const auto size = endIt - startIt;
 		if (size >= 1)
 		{
